@@ -33,6 +33,7 @@ type fakeServer struct {
 	conns   []net.Conn
 	delayMs int     // delay before every answer (C17 completion orders)
 	acted   func()  // invoked after a scripted action other than silence has been carried out
+	slowDial time.Duration // an accepted dial takes this long (a distant or busy server)
 	ctrl    *bkCtrl // fail-backup schedules: every dial and every arriving request is reported, answers are held
 	wmu     sync.Mutex
 	byArg   map[string]string // when set: the action is chosen by the request's payload, not by arrival order
@@ -47,6 +48,7 @@ type bkEvent struct {
 	ok   bool          // dial: accepted
 	act  string        // arrive: the scripted outcome
 	rel  chan struct{} // arrive: closing it lets the server act
+	at   time.Time     // arrive: when the request was read
 }
 type bkCtrl struct{ ev chan bkEvent }
 
@@ -121,6 +123,9 @@ func init() {
 			}
 			return nil, errors.New("vsrv: connection refused")
 		}
+		if s.slowDial > 0 {
+			time.Sleep(s.slowDial)
+		}
 		a, b := net.Pipe()
 		s.mu.Lock()
 		s.conns = append(s.conns, b)
@@ -179,7 +184,7 @@ func (s *fakeServer) serve(conn net.Conn) {
 		}
 		if s.ctrl != nil {
 			rel := make(chan struct{})
-			s.ctrl.ev <- bkEvent{kind: "arrive", srv: s.id, act: act, rel: rel}
+			s.ctrl.ev <- bkEvent{kind: "arrive", srv: s.id, act: act, rel: rel, at: time.Now()}
 			go func(f *refcodec.Frame, act string) {
 				<-rel
 				s.respond(conn, f, act, 0, onCtx)
